@@ -336,6 +336,9 @@ def stream_prefix(run: Run, fasta, formula, batch: Batch, n):
                     want = "raised KeyError"
                 if got != want and not (isinstance(got, list) and isinstance(want, list) and struct_eq(got, want)):
                     run.disagree("formula() prefix dispatch", dict(string=s), "Sequence(%r, %s)" % (body_, ty), str(got)[:200])
+                    # both sides are the real code: the prefix form must give the formula of the sequence class
+                    run.violation("formula(%r) differs from Sequence(%r, type=%r).labile_formula" % (s[:80], body_[:60], ty),
+                                  dict(string=s), clause="prefix")
                 if head not in TYPES or rest != body_:
                     run.violation("prefix dispatch does not split at the first ':'", dict(string=s), clause="prefix")
             elif w[0] == "chem":
